@@ -8,7 +8,7 @@ from .natives import NATIVES, find_function, val_order_axioms
 from . import solve
 
 
-def verify_case(repo, qualname, case_index, timeout_ms=10000, want_models=True, only_names=None):
+def verify_case(repo, qualname, case_index, timeout_ms=10000, want_models=True, only_names=None, retry=True):
     """Returns dict(status, results=[...], stats, notes).  status: ok | undecided | error."""
     contract = REGISTRY[qualname]
     case = contract.cases[case_index]
@@ -66,7 +66,7 @@ def verify_case(repo, qualname, case_index, timeout_ms=10000, want_models=True, 
                                                fn=qualname, case=case.name, detail=verdict).to_dict())
         import os as _os
         only = _os.environ.get('PYVC_ONLY')
-        n_retries = [0]       # slow queries on a correct tree are rare; many unknowns mean the code
+        n_retries = [0 if retry else 99]       # slow queries on a correct tree are rare; many unknowns mean the code
         #                       no longer matches its contract, and retrying each would only cost time
         for o in obls:
             if only and only not in o.name:
